@@ -2,7 +2,7 @@
    Property theorems only; every proof is [exact <lemma>].  Model: Serde/Expr.v (expressions), Circ/Bind.v
    (sub_symbols, gates and their re-wrapping methods, bind, operations, circuits, meaning). *)
 Require Import Coq.QArith.QArith Coq.Lists.List Coq.Strings.String Coq.Bool.Bool Coq.Sorting.Sorted.
-Require Import OQ.Serde.Expr OQ.Serde.ExprProofs OQ.Circ.Bind OQ.Circ.BindProofs.
+Require Import OQ.Serde.Expr OQ.Serde.ExprProofs OQ.Circ.Bind OQ.Circ.BindProofs OQ.Circ.BindCases.
 Import ListNotations.
 Open Scope nat_scope.
 
@@ -78,6 +78,42 @@ Print Assumptions custom_factory_by_position.
 Example matalg_inhabited : matalg Q.
 Proof. exact (funmat_alg Q 0%Q 1%Q (fun x => x) eq_refl eq_refl (fun x => eq_refl) (fun _ M => M) (fun M => M)). Qed.
 
+(* the premises of bind_sem_commute are met by a concrete gate: a custom gate whose arguments mention the
+   definition's own formals, under Dagger and Controlled, next to a leaf flagged hermitian *)
+Definition ex_def : cdef :=
+  {| cname := "mix2"; cformals := ["p"; "q"]%string;
+     crows := [[Sym "p"; Sym "q"]; [Expr.Add [Sym "q"; Mul [Num (-1); Sym "p"]]; Expr.Add [Mul [Sym "p"; Sym "q"]; Num 1]]];
+     cnq := 1 |}.
+Definition ex_alg : matalg Q :=
+  funmat_alg Q 0%Q 1%Q (fun x => x) eq_refl eq_refl (fun x => eq_refl) (fun _ M => M) (fun M => M).
+Definition ex_factory (name : string) (vs : list Q) : mat Q ex_alg :=
+  frows Q 0%Q 1 [[0%Q; 1%Q]; [1%Q; 0%Q]].
+Example sem_premises_met :
+  let g := Controlled 1 (Dagger (Custom ex_def [PExp (Expr.Add [Sym "q"; Num 1]); PSym "p"])) in
+  let x := Dagger (Builtin "X" true 1 []) in
+  let m := [("q"%string, VNum 2); ("p"%string, VExp (Sym "t"))] in
+  let en := aenv [("t"%string, 3%Q)] in
+  defs_closed g /\ defs_closed x /\
+  herm_sound Q (fun q => q) qadd qmul qpow 0%Q 1%Q qfun ex_alg ex_factory (menv Q (fun q => q) qadd qmul qpow 0%Q 1%Q qfun en m) x /\
+  bind m g = Ok (Controlled 1 (Dagger (Custom ex_def [PExp (Expr.Add [Num 2; Num 1]); PSym "t"]))) /\
+  bind m x = Ok (Builtin "X" true 1 []) /\
+  custom_entries Q (fun q => q) qadd qmul qpow 0%Q 1%Q qfun en ex_def [PExp (Expr.Add [Num 2; Num 1]); PSym "t"]
+  = [[3%Q; 3%Q]; [0%Q; 10%Q]].
+Proof.
+  cbv zeta. split; [apply cdef_closedb_sound; vm_compute; reflexivity|]. split; [exact I|].
+  split; [|split; [vm_compute; reflexivity|split; [vm_compute; reflexivity|vm_compute; reflexivity]]].
+  intros _. split; [reflexivity|]. intros i j.
+  destruct i as [|[|[|i]]]; destruct j as [|[|[|j]]]; reflexivity.
+Qed.
+
+(* F17 in the model: formals (a, b), matrix [[a, b], [b, a]], arguments (b + 1, 5), at b = 7 *)
+Example custom_by_position_example :
+  custom_entries Q (fun q => q) qadd qmul qpow 0%Q 1%Q qfun (aenv [("b"%string, 7%Q)])
+    {| cname := "w17"; cformals := ["a"; "b"]%string; crows := [[Sym "a"; Sym "b"]; [Sym "b"; Sym "a"]]; cnq := 1 |}
+    [PExp (Expr.Add [Sym "b"; Num 1]); PNum 5]
+  = [[8%Q; 5%Q]; [5%Q; 8%Q]].
+Proof. vm_compute. reflexivity. Qed.
+
 (* ---- 3. binding in several partial steps = binding once (first map first), when no value of the first
    map mentions a key of the second *)
 Theorem bind_partial_then_total : forall (m1 m2 : smap) (c c1 : circuit),
@@ -126,6 +162,12 @@ Theorem bind_keeps_params : forall (m : smap) (g g' : gate),
   bind m g = Ok g' -> gate_params g' = map (sub_symbols m) (gate_params g).
 Proof. exact bind_params. Qed.
 Print Assumptions bind_keeps_params.
+
+(* bind is replace_params with the substituted parameters, through every Controlled / Dagger wrapper *)
+Theorem bind_is_replace_params : forall (m : smap) (g : gate), has_pe g = false ->
+  bind m g = replace_params (map (sub_symbols m) (gate_params g)) g.
+Proof. exact bind_replace_params. Qed.
+Print Assumptions bind_is_replace_params.
 
 (* and the wrappers of a gate built through the methods are kept as they are *)
 Theorem bind_in_place : forall (m : smap) (g : gate), nfb g = true -> bind m g = Ok (gmap (sub_symbols m) g).
